@@ -11,6 +11,9 @@ CodesOk == {"ok"}
 CodesOkBusy == {"ok", "busy"}
 KindsRetryNS == {"final", "garbage", "trunc", "lost", "xerr"}
 NeedsBodyDef == {"A", "B"}
+CmdsGH == {"G", "H"}
+CmdsAGH == {"A", "G", "H"}
+CodesOkErr == {"ok", "err"}
 CmdsAB == {"A", "B"}
 CmdsAR == {"A", "R"}
 CmdsABR == {"A", "B", "R"}
